@@ -198,7 +198,9 @@ static void fam_escapes(void)
 	cur_fam = "surrogate-follower";
 	static const char *followers[] = {"\\udc00", "\\udfff", "\\ud800", "\\udbff", "\\u0041", "\\uffff",
 	                                  "\\n", "\\\\", "\\\"", "\\/", "A", "\xc3\xa9", "", "\\u0000x",
-	                                  "\\ud83d\\ude00", " "};
+	                                  "\\ud83d\\ude00", " ",
+	                                  /* a later \\u escape after the unpaired unit has been abandoned */
+	                                  "\\n\\udc00", "\\\\\\u0041", "x\\ude00", "\\t\\ud83d\\ude00"};
 	for (unsigned u = 0xD800; u < 0xE000; u++)
 		for (unsigned k = 0; k < sizeof followers / sizeof followers[0]; k++)
 		{
